@@ -8,7 +8,10 @@ import (
 	"strconv"
 	"strings"
 
+	"time"
+
 	"verifharness/internal/proto"
+	"verifharness/internal/tlc"
 )
 
 func init() { registry["C07"] = checkC07 }
@@ -213,7 +216,7 @@ func c07Judge(c *Ctx, j *Job, res *proto.Result) {
 }
 
 func checkC07(c *Ctx) {
-	c.Rep.Rule = "programs are behaviours of Scope.tla with TLC's read set and global-definition table; the start-up publishDiagnostics of a fresh real server (all checks on) are projected to {(type, file, line, col)} for types 2, 3, 4 and compared with the set the bindings require; distinct = distinct programs"
+	c.Rep.Rule = "programs are behaviours of Scope.tla with TLC's read set and global-definition table; the start-up publishDiagnostics of a fresh real server (all checks on) are projected to {(type, file, line, col)} for types 2, 3, 4 and compared with the set the bindings require. Second family: IgnoreLists.tla enumerates the subsets of an exact-name list and a shell-pattern list given through luahelper.json (IgnoreModules, IgnoreWildcardModules); a file reads ten names (matching, near-missing, built-in, unrelated) and exactly the unbound names that no entry covers must be reported undefined; distinct = distinct programs and configurations"
 	c.Rep.Assumptions = []string{
 		"exempt from unused-local: parameters, loop variables, function values (statement's list); only plain local declarations carry a type-4 obligation",
 		"a use inside a function body of a global defined later at top level is UNSPECIFIED (type 3 or nothing); so is a use whose only definitions come later inside function bodies",
@@ -234,10 +237,83 @@ func checkC07(c *Ctx) {
 	}
 	p := c.NewPool(0)
 	scopeRuns(c, p, c07Build, func(j *Job, r *proto.Result) { c07Judge(c, j, r) })
+	// second family: names that luahelper.json declares as provided from outside (IgnoreLists.tla)
+	c.streamRun("ignore_lists", tlc.Run{Module: "IgnoreLists", Workers: 2, Timeout: 10 * time.Minute,
+		Cfg: "INIT Init\nNEXT Next\nINVARIANTS BuiltInNeverReported Monotone Emit\nCHECK_DEADLOCK FALSE\n"}, p, 4,
+		func(id int, raw json.RawMessage) *Job {
+			var o struct {
+				Names     []string `json:"names"`
+				Exact     []string `json:"exact"`
+				Pats      []string `json:"pats"`
+				Undefined []int    `json:"undefined"`
+			}
+			if json.Unmarshal(raw, &o) != nil || len(o.Names) == 0 {
+				return nil
+			}
+			var sb strings.Builder
+			for _, n := range o.Names {
+				sb.WriteString("print(" + n + ")\n")
+			}
+			if o.Exact == nil {
+				o.Exact = []string{}
+			}
+			if o.Pats == nil {
+				o.Pats = []string{}
+			}
+			cfg, _ := json.Marshal(map[string]interface{}{"ShowWarnFlag": 1, "IgnoreModules": o.Exact, "IgnoreWildcardModules": o.Pats})
+			text := sb.String()
+			pc := &proto.Case{ID: id, Files: map[string]string{"main.lua": text, "luahelper.json": string(cfg)}, Init: json.RawMessage(allOnLocal)}
+			want := map[int]bool{}
+			for _, i := range o.Undefined {
+				want[i-1] = true // line = position in Names
+			}
+			return &Job{PC: pc, Data: &ignData{names: o.Names, want: want, cfg: string(cfg)}}
+		},
+		func(j *Job, res *proto.Result) {
+			d := j.Data.(*ignData)
+			c.Rep.Eval(string(j.Raw))
+			if res.Crash != "" || res.Hang {
+				c.Rep.Violation(j.Raw, fmt.Sprintf("server died or hung (crash=%q) under %s", res.Crash, d.cfg))
+				return
+			}
+			view := map[string][]diag{}
+			foldDiags(res.Root, view, res.InitNtfs)
+			got := map[int]bool{}
+			for _, x := range view["main.lua"] {
+				if x.Type == 2 || x.Type == 3 {
+					got[x.SL] = true
+				}
+			}
+			var prob []string
+			for i, n := range d.names {
+				if d.want[i] && !got[i] {
+					prob = append(prob, n+" is read, unbound and not configured-ignored, but is not reported undefined")
+				}
+				if !d.want[i] && got[i] {
+					prob = append(prob, n+" is reported undefined although it is a built-in or configured-ignored name")
+				}
+			}
+			if len(prob) == 0 {
+				return
+			}
+			desc := fmt.Sprintf("under luahelper.json %s: %s", d.cfg, strings.Join(prob, "; "))
+			if surveyMode {
+				sv.add("ignorelists "+firstWords(prob[0], 6), desc)
+				return
+			}
+			c.Rep.Violation(j.Raw, desc)
+		})
 	c.poolStats(p)
 	if surveyMode {
 		sv.dump()
 	}
+}
+
+// ignData: one IgnoreLists.tla configuration.
+type ignData struct {
+	names []string
+	want  map[int]bool
+	cfg   string
 }
 
 // occAfter: a comes textually after b in the same file.
